@@ -40,10 +40,12 @@ Configs ==
     [lo |-> 0, hi |-> 64, roots |-> {51}, sign |-> 1, tol |-> 1, nmax |-> 3] }      \* reversed ends; iteration cap
 
 Init == B!Init /\ cfg \in Configs
-Next == \/ B!Begin(cfg.lo, cfg.hi, cfg.tol, cfg.nmax, F(cfg.lo, cfg), F(cfg.hi, cfg)) /\ UNCHANGED cfg
-        \/ B!Iter(LAMBDA x : F(x, cfg)) /\ UNCHANGED cfg
-        \/ B!GiveUp /\ UNCHANGED cfg
-        \/ B!Done /\ UNCHANGED cfg
+\* (named disjuncts: TLC then reports how often each was taken - the vacuity guard of the check reads that)
+Begin == B!Begin(cfg.lo, cfg.hi, cfg.tol, cfg.nmax, F(cfg.lo, cfg), F(cfg.hi, cfg)) /\ UNCHANGED cfg
+Iter == B!Iter(LAMBDA x : F(x, cfg)) /\ UNCHANGED cfg
+GiveUp == B!GiveUp /\ UNCHANGED cfg
+Done == B!Done /\ UNCHANGED cfg
+Next == Begin \/ Iter \/ GiveUp \/ Done
 Spec == Init /\ [][Next]_vars /\ WF_vars(Next)
 
 InsideInitialInterval == inside
